@@ -40,10 +40,10 @@ theorem cohen_value (y : K) :
       ∧ Gen.cohen_deriv_pos_f c c3 fn y = Gen.cohen_value_pos_f c c3 fn y
       ∧ Gen.cohen_deriv_neg_f c c3 fn y = Gen.cohen_value_neg_f c c3 fn y := by
   simp only [gen_simp, cohenN, cohenD, eval_mul, eval_sub, eval_X, eval_C, eval_pow, eval_one]
-  refine ⟨?_, ?_, ?_, ?_⟩ <;> ring
+  refine ⟨?_, ?_, ?_, ?_⟩ <;> first | trivial | ring1
 theorem cohen_odd (y : K) :
     Gen.cohen_value_neg_f c c3 fn (-y) = -Gen.cohen_value_pos_f c c3 fn y := by
-  simp only [gen_simp]; ring
+  simp only [gen_simp]; ring1
 theorem cohen_deriv_formal (y : K) (h : 1 - y ^ 2 ≠ 0) :
     Gen.cohen_deriv_pos_df c c3 fn y = formalDeriv cohenN cohenD y
       ∧ Gen.cohen_deriv_neg_df c c3 fn y = formalDeriv cohenN cohenD y := by
@@ -77,11 +77,11 @@ theorem jedynak_value (y : K) :
       ∧ Gen.jedynak_deriv_neg_f c c3 fn y = Gen.jedynak_value_neg_f c c3 fn y := by
   simp only [gen_simp, jedynakN, jedynakD, jc0, jc1, jc2, jd1, jd2, eval_mul, eval_add, eval_X, eval_C, eval_pow,
     eval_one]
-  refine ⟨?_, ?_, ?_⟩ <;> ring
+  refine ⟨?_, ?_, ?_⟩ <;> first | trivial | ring1
 /-- the inverse Langevin function is odd; so must be its approximation -/
 theorem jedynak_odd (y : K) (h0 : 0 < y) (h1 : y < 1) :
     Gen.jedynak_value_neg_f c c3 fn (-y) = -Gen.jedynak_value_pos_f c c3 fn y := by
-  simp only [gen_simp]; ring
+  simp only [gen_simp]; ring1
 /-- the denominator `(1 - y)(1 + 0.105064 y)` (up to the rounding of the literals) is positive on (-1, 1) -/
 theorem jedynak_den_pos (y : K) (h1 : -1 < y) (h2 : y < 1) : 0 < (jedynakD (K := K)).eval y := by
   simp only [jedynakD, jd1, jd2, eval_mul, eval_add, eval_X, eval_C, eval_pow, eval_one]
@@ -96,7 +96,7 @@ theorem jedynak_deriv_formal (y : K) (h1 : -1 < y) (h2 : y < 1) :
   simp only [gen_simp, formalDeriv, jedynakN, jedynakD, jc0, jc1, jc2, jd1, jd2, derivative_mul, derivative_add,
     derivative_X, derivative_C, derivative_X_pow, derivative_one, eval_mul, eval_sub, eval_add, eval_X, eval_C,
     eval_pow, eval_one, eval_zero, Nat.cast_ofNat]
-  field_simp; ring
+  field_simp; ring1
 theorem jedynak_deriv_pos (y : K) (h1 : -1 < y) (h2 : y < 1) :
     0 < Gen.jedynak_deriv_pos_df c c3 fn y := by
   have hd := jedynak_den_pos y h1 h2
@@ -133,17 +133,17 @@ theorem morch_value (y : K) :
       ∧ Gen.morch_deriv_neg_f c c3 fn y = Gen.morch_value_neg_f c c3 fn y := by
   simp only [gen_simp, morchN, mc0, mc1, mc2, mc3, mc4, mc5, mc6, mc7, mc8, mc9, eval_mul, eval_add, eval_X, eval_C,
     eval_pow, eval_one, div_one]
-  refine ⟨?_, ?_, ?_, ?_⟩ <;> ring
+  refine ⟨?_, ?_, ?_, ?_⟩ <;> first | trivial | ring1
 theorem morch_odd (y : K) :
     Gen.morch_value_neg_f c c3 fn (-y) = -Gen.morch_value_pos_f c c3 fn y := by
-  simp only [gen_simp]; ring
+  simp only [gen_simp]; ring1
 theorem morch_deriv_formal (y : K) :
     Gen.morch_deriv_pos_df c c3 fn y = formalDeriv morchN 1 y
       ∧ Gen.morch_deriv_neg_df c c3 fn y = formalDeriv morchN 1 y := by
   simp only [gen_simp, formalDeriv, morchN, mc0, mc1, mc2, mc3, mc4, mc5, mc6, mc7, mc8, mc9, derivative_mul,
     derivative_add, derivative_X, derivative_C, derivative_X_pow, derivative_one, eval_mul, eval_sub, eval_add, eval_X,
     eval_C, eval_pow, eval_one, eval_zero, Nat.cast_ofNat]
-  constructor <;> ring
+  constructor <;> ring1
 theorem morch_deriv_pos (y : K) :
     0 < Gen.morch_deriv_pos_df c c3 fn y ∧ 0 < Gen.morch_deriv_neg_df c c3 fn y := by
   have key : ∀ a b : K, 0 < a → 0 ≤ b → 0 < a + y * (b * 2 * y) := by
@@ -213,7 +213,7 @@ theorem bb_value (y : K) :
       ∧ Gen.bb_deriv_hipos_f c c3 fn y = Gen.bb_value_hipos_f c c3 fn y
       ∧ Gen.bb_deriv_hineg_f c c3 fn y = Gen.bb_value_hineg_f c c3 fn y := by
   simp only [gen_simp, bc1, bc2, bc3]
-  refine ⟨?_, ?_, ?_, ?_, ?_, ?_, ?_, ?_⟩ <;> ring
+  refine ⟨?_, ?_, ?_, ?_, ?_, ?_, ?_, ?_⟩ <;> first | trivial | ring1
 /-- oddness, piece by piece, for an odd `tan` -/
 theorem bb_odd (y : K) (ht : ∀ x, fn.tan (-x) = -fn.tan x) :
     Gen.bb_value_loneg_f c c3 fn (-y) = -Gen.bb_value_lopos_f c c3 fn y
@@ -232,10 +232,10 @@ theorem bb_deriv_formal (y : K) (hp : 1 - y ≠ 0) (hn : -1 - y ≠ 0) :
   simp only [gen_simp, formalDeriv, bc1, bc2, bc3, derivative_sub, derivative_X, derivative_C, derivative_one,
     eval_mul, eval_sub, eval_X, eval_C, eval_one, eval_zero, eval_neg]
   refine ⟨?_, ?_, ?_, ?_⟩
-  · field_simp; ring
-  · field_simp; ring
-  · ring
-  · ring
+  · field_simp; ring1
+  · field_simp; ring1
+  · first | trivial | ring1
+  · first | trivial | ring1
 theorem bb_deriv_pos (y : K) (h1 : -1 < y) (h2 : y < 1) (hc : fn.cos (bc2 * y) ≠ 0) :
     0 < Gen.bb_deriv_hipos_df c c3 fn y ∧ 0 < Gen.bb_deriv_hineg_df c c3 fn y
       ∧ 0 < Gen.bb_deriv_lopos_df c c3 fn y ∧ 0 < Gen.bb_deriv_loneg_df c c3 fn y := by
@@ -313,8 +313,10 @@ theorem jedynak_hasDerivAt (c c3 : ℝ) (fn : Fns ℝ) (y : ℝ) (h1 : -1 < y) (
     exact hpos y h1 h2
   · rw [(h y).2, show (fun x => Gen.jedynak_value_neg_f c c3 fn x)
         = fun x => -Gen.jedynak_value_pos_f c c3 fn (-x) from funext fun x => (h x).1]
-    have := ((hpos (-y) (by linarith) (by linarith)).comp y (hasDerivAt_neg y)).neg
-    convert this using 1; ring
+    have h3 : HasDerivAt (fun x => -Gen.jedynak_value_pos_f c c3 fn (-x))
+        (-(Gen.jedynak_deriv_pos_df c c3 fn (-y) * -1)) y :=
+      ((hpos (-y) (by linarith) (by linarith)).comp y (hasDerivAt_neg y)).neg
+    exact h3.congr_deriv (by ring)
 theorem jedynak_strictMono (c c3 : ℝ) (fn : Fns ℝ) :
     StrictMonoOn (glue (Gen.jedynak_value_neg_f c c3 fn) (Gen.jedynak_value_pos_f c c3 fn)) (Set.Ioo (-1) 1) := by
   apply strictMonoOn_glue
@@ -370,9 +372,10 @@ theorem bb_hasDerivAt_lo (c c3 : ℝ) (y : ℝ) (h1 : -bc0 < y) (h2 : y < bc0) :
       (bc1 * bc2 / (Real.cos (bc2 * y)) ^ 2 + bc3) y := by
     have ht : HasDerivAt (fun x : ℝ => Real.tan (bc2 * x)) (1 / Real.cos (bc2 * y) ^ 2 * (bc2 * 1)) y :=
       (Real.hasDerivAt_tan hc).comp y ((hasDerivAt_id' y).const_mul (bc2 : ℝ))
-    have h2 := (ht.const_mul (bc1 : ℝ)).add ((hasDerivAt_id' y).const_mul (bc3 : ℝ))
-    convert h2 using 1
-    ring
+    have h2 : HasDerivAt (fun x : ℝ => bc1 * Real.tan (bc2 * x) + bc3 * x)
+        (bc1 * (1 / Real.cos (bc2 * y) ^ 2 * (bc2 * 1)) + bc3 * 1) y :=
+      (ht.const_mul (bc1 : ℝ)).add ((hasDerivAt_id' y).const_mul (bc3 : ℝ))
+    exact h2.congr_deriv (by ring)
   constructor
   · rw [show (fun x => Gen.bb_value_lopos_f c c3 realFns x) = fun x => bc1 * Real.tan (bc2 * x) + bc3 * x from
       funext fun x => (e x).1]
